@@ -747,7 +747,7 @@ func main() {
 		Name: "c27",
 		Rule: "element sequences (free interleavings, runs per type, nodes only, runs of 7999..16001 elements) written with osm.Writer, block structure dumped, read back with 1/2/8 goroutines; hand-built single blocks for the reader; encodeAngle/decodeAngle. non-trivial = a written file with at least 2 blocks and at least one tag",
 		Quick:    2500,
-		Thorough: 40000,
+		Thorough: 25000,
 		Corpus: func(c *hx.Ctx) {
 			// empty file; one element of each kind; the empty string as key, value and role; extreme IDs
 			roundTrip(c, nil)
